@@ -84,6 +84,7 @@ struct InvPlan {
   bool editor = false;
   int stream = 100;
   int nproc = 4;
+  bool record_sys = false;   // probe run: record the kind of every syscall
 };
 
 struct InvRecord {
@@ -103,6 +104,11 @@ struct InvRecord {
   DepsLogFold deps_before, deps_after;
   std::map<std::string, std::pair<uint64_t, int64_t>> fs_before;   // path -> (content hash, mtime)
   int tokens_before = -1, tokens_after = -1;
+  bool log_torn_tail_before = false;   // .ninja_log did not end in a newline when ninja started (a crash tore it)
+  // state at the instant ninja exited (before orphaned children continue)
+  std::map<std::string, std::pair<std::string, int64_t>> outs_at_exit;   // only paths that exist
+  bool lock_at_exit = false;
+  std::set<int> alive_at_exit;     // pids of children still running when ninja exited
   bool quiet() const { return !fault_fired && !external_edit; }
   bool ok() const { return res.end == ProcResult::kExit && res.exit_code == 0; }
 };
@@ -158,6 +164,7 @@ struct World : SpawnHandler {
   void CheckOutput(const InvRecord& r);
   void CheckTermination(const InvRecord& r);
   void CheckRsp(const InvRecord& r);
+  void CheckInterrupt(const InvRecord& r);
 };
 
 struct RunResult {
